@@ -35,18 +35,27 @@ Lattice(r) == Has(r, "nodes")
 NRef(r) == CASE r.kind = "node" -> (IF Lattice(r) THEN Len(r.nodes) ELSE Len(r.latint))
              [] r.kind = "face" -> Len(r.mesh)
              [] r.kind = "edge" -> Len(r.srcE)
+\* r.refs: lattice points the SOURCE supplies as its face / edge centres (then they are the reference points)
 Dirs(r) == [ e \in 1..NRef(r) |->
                CASE r.kind = "node" -> r.nodes[e]
+                 [] Has(r, "refs")  -> Prim(r.refs[e])
                  [] r.kind = "face" -> FaceCentreDir(r.nodes, r.mesh[e])
                  [] r.kind = "edge" -> EdgeCentreDir(r.nodes, r.srcE[e]) ]
-\* centres are exact only when the corners have equal norms
-CentresExact(r) == r.kind = "node" \/ UniformNorm(r.nodes, 0..(Len(r.nodes) - 1))
+\* computed centres are exact only when the corners have equal norms
+CentresExact(r) == r.kind = "node" \/ Has(r, "refs") \/ UniformNorm(r.nodes, 0..(Len(r.nodes) - 1))
+\* r.fine: the source is the image of the lattice mesh under the shrink map about this centre (Subset!Shrink).
+\* Classes decided on the lattice carry over only where the map keeps them (SubsetGen!ShrinkLaws): latitude and
+\* longitude classes for a centre at a pole, distance classes from the centre itself; index selections always.
+FineOK(r) == ~Has(r, "fine") \/ r.sel.t = "idx"
+             \/ (r.sel.t \in { "box", "lat" } /\ IsPole(r.fine))
+             \/ (r.sel.t \in { "circle", "knn" } /\ SameDir(r.sel.c, r.fine))
 G(d, x) == IF x = -1 THEN NONE ELSE d[x + 1]
 DirSet(d) == { d[e] : e \in 1..Len(d) }
 
 (* ---- preconditions of the exact decision (machinery, not verdicts) ------------- *)
 Pre(r, d) ==
   LET s == r.sel  P == DirSet(d) IN
+  (IF FineOK(r) THEN {} ELSE { "fine_not_scale_free" }) \cup
   CASE s.t = "idx" -> {}
     [] s.t = "box" ->
          (IF CentresExact(r) THEN {} ELSE { "centres_not_exact" })
